@@ -78,6 +78,19 @@ func c09Case(c *core.C) {
 	r := c.R
 	ill := c.K%2 == 1
 	A, B, C := c09List(r, ill, true), c09List(r, ill, true), c09List(r, ill, false)
+	if c.K%7 == 3 && len(A.Nodes) > 0 {
+		// near-equal operands: B is A in another presentation, shared nodes differing only in sub-second date parts
+		B = gen.ShuffledPresentation(r, A)
+		for i, n := range B.Nodes {
+			B.Nodes[i] = permuteNode(r, n)
+			for _, t := range []**timestampT{&B.Nodes[i].ReleaseDate, &B.Nodes[i].BuildDate, &B.Nodes[i].ValidUntilDate} {
+				if *t != nil {
+					(*t).Nanos = int32(r.Intn(1000000000))
+				}
+			}
+		}
+		c.Cover("operands:near-equal")
+	}
 	det := map[string]any{"A": gen.Canon(A), "B": gen.Canon(B)}
 	a0, b0 := gen.Clone(A), gen.Clone(B)
 	shared := gen.Inter(gen.IDSet(A), gen.IDSet(B))
